@@ -692,10 +692,17 @@ class System:
                 pname = self._g[parents[eidx][0]]._params["name"]
                 for c in childs[eidx]:
                     self._g.add_edge(parents[eidx][0], c, None)
-                    # a PMux child takes the new parent at the same input position
-                    self._g.attrs["pnames"][c] = [
-                        pname if p == name else p for p in self._g.attrs["pnames"][c]
-                    ]
+                    if pname in self._g.attrs["pnames"][c]:
+                        # the new parent already is an input of this PMux: one link remains
+                        self._g.attrs["pnames"][c] = [
+                            p for p in self._g.attrs["pnames"][c] if p != name
+                        ]
+                    else:
+                        # a PMux child takes the new parent at the same input position
+                        self._g.attrs["pnames"][c] = [
+                            pname if p == name else p
+                            for p in self._g.attrs["pnames"][c]
+                        ]
 
     def tree(self, name=""):
         """Print the tree structure of the system.
